@@ -12,7 +12,6 @@ directive @defer(label: String, if: Boolean! = true) on FRAGMENT_SPREAD | INLINE
 
 # known-finding classes (narrow, decidable on the case)
 CLS_OVERFLOW = "selection_set_recursion_unguarded"
-CLS_DEFER = "defer_walk_limit_swallowed"
 
 
 def staged(ctx, impl, model, family, dump_family, sources, compare=None):
@@ -117,6 +116,10 @@ def expect_rl(label):
     for prefix in ("walk-query-", "walk-mutation-", "walk-subscription-"):
         if label.startswith(prefix) and int(label.rsplit("-", 1)[1]) > 500:
             return True
+    if label.startswith("walk-defer-root-10-") or label.startswith("walk-defer-uncond-10-"):
+        return True     # a @defer walk of validate_defer reaches its limit (with or without the other walks)
+    if label.startswith("walk-defer-label-"):
+        return int(label.rsplit("-", 1)[1]) > 500 and "-f-" not in label and "-fi-" not in label
     if label.startswith("deep-selection-") or label.startswith("deep-inline-"):
         return int(label.rsplit("-", 1)[1]) >= 500
     return False
@@ -190,7 +193,7 @@ def run(ctx):
     count_verdicts(ctx, "gd_dir_cycle", rows)
     rows, _ = staged(ctx, impl, model, "gd_frag_cycle", "c21_ast_dump", sources["frag"])
     count_verdicts(ctx, "gd_frag_cycle", rows)
-    # walks: the model also says whether a discarded @defer walk was truncated
+    # walks: the model also says whether a @defer walk of validate_defer ended with the limit error
     rows, labels = staged(ctx, impl, model, "gd_walk", "c21_ast_dump", sources["walk"],
                           compare=lambda i, m: i == m.rsplit(" ", 1)[0])
     fam = ctx.cov["families"]["gd_walk"]
@@ -198,15 +201,14 @@ def run(ctx):
         f = dict(x.split("=") for x in m.split(" "))
         for k in ("rec", "used", "defer_root", "uncond", "trunc"):
             fam[k] = fam.get(k, 0) + int(f[k])
-        if f["trunc"] == "1" and i.startswith("rec=0 used=0"):
-            # oracle: a walk stopped at the depth limit and nothing in the diagnostics says so
-            if not ctx.known_hit(CLS_DEFER):
+        if f["trunc"] == "1":
+            fam["defer_limit_alone"] = fam.get("defer_limit_alone", 0) + (f["used"] == "0")
+            if i.startswith("rec=0 used=0"):
+                # oracle (C21_defer_limit_reported): a walk stopped at the depth limit and nothing in the diagnostics says so
                 ctx.oracle_failures += 1
                 ctx.violation({"family": "gd_walk", "case": c, "case_readable": labels[c] + ": " + unhexs(c.split(" ")[1])[:3000],
                                "impl": i, "model": m,
                                "what": "a @defer walk ended with the recursion-limit error and no recursion-limit diagnostic was produced"})
-            else:
-                fam["known"] += 1
     # field merging depth: abstract graph of merged field sets (computed independently by the generator)
     msrc = G.merge_sources(rng, quick)
     mcases = {f"{g} {hexs(text)}": label for label, (g, text) in msrc}
